@@ -1,6 +1,7 @@
 package main
 
 import (
+	"fmt"
 	"sort"
 	"strconv"
 
@@ -89,6 +90,21 @@ type world struct {
 
 func nn(t graphql.Type) graphql.Type { return graphql.NewNonNullType(t) }
 func li(t graphql.Type) graphql.Type { return graphql.NewListType(t) }
+
+// wrapper chains over a named type T: T, T!, [T], [T!], [T]!, [T!]!, [[T]], [[T!]], [[T]!], [[T]]!, [[T!]!]!
+var shapeChains = []func(graphql.Type) graphql.Type{
+	func(t graphql.Type) graphql.Type { return t },
+	func(t graphql.Type) graphql.Type { return nn(t) },
+	func(t graphql.Type) graphql.Type { return li(t) },
+	func(t graphql.Type) graphql.Type { return li(nn(t)) },
+	func(t graphql.Type) graphql.Type { return nn(li(t)) },
+	func(t graphql.Type) graphql.Type { return nn(li(nn(t))) },
+	func(t graphql.Type) graphql.Type { return li(li(t)) },
+	func(t graphql.Type) graphql.Type { return li(li(nn(t))) },
+	func(t graphql.Type) graphql.Type { return li(nn(li(t))) },
+	func(t graphql.Type) graphql.Type { return nn(li(li(t))) },
+	func(t graphql.Type) graphql.Type { return nn(li(nn(li(nn(t))))) },
+}
 
 func args(kv ...interface{}) map[string]*graphql.InputValueDefinition {
 	m := map[string]*graphql.InputValueDefinition{}
@@ -268,6 +284,16 @@ func buildWorld(r *rng.R, small bool) *world {
 	o2.Fields["tol"] = &graphql.FieldDefinition{Type: o1}
 	o1.Fields["ton"] = &graphql.FieldDefinition{Type: nn(o2)}
 	o2.Fields["ton"] = &graphql.FieldDefinition{Type: o1}
+	// the wrapper-chain matrix of the shape rule: the same families of fields on Alpha and on Beta
+	// (sc<k>: chain k over the leaf String, oc<k>: chain k over the object Gamma); a document pairs
+	// chain i on one parent with chain j on the other under one alias, so that only
+	// SameResponseShape applies (two different object types)
+	for k, ch := range shapeChains {
+		o1.Fields[fmt.Sprintf("sc%d", k)] = &graphql.FieldDefinition{Type: ch(graphql.StringType)}
+		o2.Fields[fmt.Sprintf("sc%d", k)] = &graphql.FieldDefinition{Type: ch(graphql.StringType)}
+		o1.Fields[fmt.Sprintf("oc%d", k)] = &graphql.FieldDefinition{Type: ch(o3)}
+		o2.Fields[fmt.Sprintf("oc%d", k)] = &graphql.FieldDefinition{Type: ch(o3)}
+	}
 	o1.Fields["ta"] = &graphql.FieldDefinition{Type: graphql.IntType, Arguments: args("x", graphql.IntType)}
 	o2.Fields["ta"] = &graphql.FieldDefinition{Type: graphql.IntType, Arguments: args("x", graphql.IntType)}
 
